@@ -65,9 +65,38 @@ def under_flip_test(node: ast.AST, loop: ast.For, rd: RD) -> bool:
     return False
 
 
+def check_selection_product(ctx: Check, tree: Tree, fn: FuncInfo, param: str) -> None:
+    """The helper multiplies interaction.parity_prefactor over EXACTLY the nodes in ``param``."""
+    rd = RD(fn.node)
+    loops = [n for n in walk_function(fn.node) if isinstance(n, ast.For)]
+    key = f"{fn.qual}::product-over-selection"
+    if len(loops) != 1:
+        raise AnalysisError(f"{fn.qual}: expected one loop over the selected nodes, found {len(loops)}")
+    loop = loops[0]
+    it = loop.iter
+    exact = isinstance(it, ast.Name) and it.id == param and all(d.kind == "param" for d in rd.reaching(it))
+    problems = []
+    if not exact:
+        if isinstance(it, ast.BoolOp) or isinstance(it, ast.IfExp):
+            problems.append(f"iterates `{unparse(it)}`: an EMPTY selection (a chain without flipped node) falls back to another node set")
+        else:
+            problems.append(f"iterates `{unparse(it)}`, not exactly the selection `{param}`")
+    var = unparse(loop.target)
+    upd = [n for n in walk_function(loop) if isinstance(n, ast.AugAssign) and isinstance(n.op, ast.Mult)]
+    if not upd:
+        problems.append("no product update in the loop")
+    for u in upd:
+        txt = unparse(u.value) + "".join(unparse(d.value) for d in rd.closure(rd.uses(u.value)) if d.value is not None)
+        loop_defs = {d for d in rd.defs if d.kind == "for" and d.node is loop}
+        if "parity_prefactor" not in txt or not (rd.closure(rd.uses(u.value)) & loop_defs):
+            problems.append(f"`{unparse(u)}` is not the parity factor of the node `{var}`")
+    ctx.verdict(not problems, "R-DEPENDS", key, tree.loc(loop), f"{fn.qual}: product of interaction.parity_prefactor over exactly the nodes in `{param}`", problems or None)
+
+
 def run(ctx: Check, tree: Tree) -> None:
     ctx.decided += [
         "R-DEPENDS: every non-trivial value returned by the parity-prefactor function depends on the node loop variable, and every contribution inside the node loop is guarded by the per-node test `mapped suffix != raw suffix` and takes the parity factor of that node",
+        "R-TERM (shared with C02): the canonical expansion used by the equivalence clause is CG(L,0;S,d|J,d) * CG(s1,l1;s2,-l2|S,d) on every path",
         "R-PARTNER: the partner suffix is built with make_parity_partner=True for both daughters and without the parent helicity; _state_to_str negates the helicity; each node suffix is mapped through the partner mapping",
     ]
     ctx.not_decided += ["equivalence with the canonical formalism for all LS coefficient values (numerical)", "which interactions qrules marks with a parity prefactor"]
@@ -143,12 +172,56 @@ def run(ctx: Check, tree: Tree) -> None:
         ctx.verdict(not problems, "R-DEPENDS", key, tree.loc(node), f"{fn.qual}: `{unparse(node)}` multiplies the parity factor of exactly the flipped node", problems or None)
     ctx.stats["in_loop_updates"] = n_updates
 
+    # ---- delegation: the loop only COLLECTS the flipped nodes and a helper multiplies their factors
+    n_collect = 0
+    for node in walk_function(loop):
+        coll = None
+        if isinstance(node, ast.Call) and isinstance(node.func, ast.Attribute) and node.func.attr in {"append", "add"} and isinstance(node.func.value, ast.Name) and len(node.args) == 1:
+            coll, item = node.func.value.id, node.args[0]
+        elif isinstance(node, ast.AugAssign) and isinstance(node.op, ast.Add) and isinstance(node.target, ast.Name) and isinstance(node.value, (ast.List, ast.Tuple)) and len(node.value.elts) == 1:
+            coll, item = node.target.id, node.value.elts[0]
+        if coll is None or coll not in returned_names:
+            continue
+        n_collect += 1
+        key = f"{fn.qual}::collect {unparse(node)}"
+        problems = []
+        if not under_flip_test(node, loop, rd):
+            problems.append("nodes are collected that were NOT mapped to a partner (not under `mapped != raw`)")
+        if unparse(item) != loop_var:
+            problems.append(f"collects `{unparse(item)}`, not the node `{loop_var}`")
+        ctx.verdict(not problems, "R-DEPENDS", key, tree.loc(node), f"{fn.qual}: `{unparse(node)}` collects exactly the flipped nodes", problems or None)
+        # every repo function that receives the collection and feeds the result must multiply over exactly that selection
+        consumers = 0
+        for call in [c for c in walk_function(fn.node) if isinstance(c, ast.Call)]:
+            pos = [i for i, a in enumerate(call.args) if isinstance(a, ast.Name) and a.id == coll]
+            kws = [k.arg for k in call.keywords if isinstance(k.value, ast.Name) and k.value.id == coll and k.arg]
+            if not pos and not kws:
+                continue
+            callee = tree.callee(call, fn)
+            tgt = tree.funcs.get(callee) if callee else None
+            if tgt is None:
+                if isinstance(call.func, ast.Attribute) and call.func.attr in {"append", "add"}:
+                    continue
+                raise AnalysisError(f"{fn.qual}: the collected nodes are handed to `{unparse(call.func)}`, which is not a function of the package")
+            params = tgt.params[1:] if tgt.cls is not None and tgt.params[:1] in (["self"], ["cls"]) else tgt.params
+            pname = kws[0] if kws else params[pos[0]]
+            consumers += 1
+            check_selection_product(ctx, tree, tgt, pname)
+        if not consumers:
+            raise AnalysisError(f"{fn.qual}: collected nodes `{coll}` reach the result through an unknown shape")
+    if n_updates + n_collect == 0:
+        raise AnalysisError(f"{fn.qual}: neither an in-loop product nor a collection of flipped nodes found - the rule would pass vacuously")
+
     # ---- the raw suffix that is looked up is the suffix of that node
     lookups = [n for n in walk_function(loop) if isinstance(n, ast.Call) and isinstance(n.func, ast.Attribute) and n.func.attr == "generate_two_body_decay_suffix"]
     ok = bool(lookups) and all(len(c.args) == 2 and unparse(c.args[1]) == loop_var for c in lookups)
     ctx.verdict(ok, "R-DEPENDS", f"{fn.qual}::raw-suffix-of-node", tree.loc(loop), f"the raw suffix is generate_two_body_decay_suffix(transition, {loop_var}) of the loop's node")
 
     ctx.section(check_partner_suffix, ctx, tree)
+    # "equivalently ... the Clebsch-Gordan expansion reproduces the canonical intensity": the expansion is the two-CG product of C02
+    from .c02 import check_cg
+
+    ctx.section(check_cg, ctx, tree)
 
 
 def check_partner_suffix(ctx: Check, tree: Tree) -> None:
